@@ -1,0 +1,10 @@
+//go:build verif
+
+package fluentdforward
+
+// SetChunkLimitsForVerif changes the chunk limits used by chunk makers created afterwards and returns the previous ones
+func SetChunkLimitsForVerif(maxSizeBytes, maxRecords int) (int, int) {
+	oldBytes, oldRecords := chunkMaxSizeBytes, chunkMaxRecords
+	chunkMaxSizeBytes, chunkMaxRecords = maxSizeBytes, maxRecords
+	return oldBytes, oldRecords
+}
